@@ -4,7 +4,7 @@ use crate::rng::Rng;
 pub use imp::run;
 
 pub const DRIVERS: &[&str] = &["rolling_apply", "rolling_apply_idx", "rolling2_apply", "rolling2_apply_idx", "rolling_custom", "rolling2_custom", "rolling_custom_iter"];
-pub const OUTC: &[&str] = &["vec", "deque", "nd", "nds"];
+pub const OUTC: &[&str] = &["vec", "deque", "nd", "nds", "dqw"];
 
 /// the caller-buffer path: `no` = a fresh uninitialised container of type `$O`; `yes` = a *strided*
 /// uninitialised ndarray view (every second slot of a base array pre-filled with a sentinel): results
@@ -15,6 +15,32 @@ macro_rules! out_path {
         { let r = <$O as Vec1<i64>>::uninit_ref_mut(&mut buf); $call_out(r); }
         let o: $O = unsafe { buf.assume_init() };
         o.titer().collect::<Vec<i64>>()
+    }};
+    (wrap, $O:ty, $len:expr, $call_out:expr) => {{
+        // a VecDeque<MaybeUninit<i64>> caller buffer whose ring storage wraps around (head offset > 0,
+        // two non-empty slices for len >= 2): every logical slot must be written, in order
+        use std::mem::MaybeUninit;
+        const SENT: i64 = -7_777_777;
+        let n: usize = $len;
+        let mut buf: VecDeque<MaybeUninit<i64>> = VecDeque::with_capacity(n);
+        for _ in 0..n { buf.push_back(MaybeUninit::new(SENT)); }
+        if n >= 2 {
+            let mut extra = 1;
+            let mut guard = 0;
+            while (buf.as_slices().1.is_empty() || extra > 0) && guard < 4 * n + 8 {
+                if !buf.as_slices().1.is_empty() { extra -= 1; }
+                buf.pop_front();
+                buf.push_back(MaybeUninit::new(SENT));
+                guard += 1;
+            }
+        }
+        { let r = &mut buf; $call_out(r); }
+        let mut v: Vec<i64> = buf.iter().map(|m| unsafe { m.assume_init() }).collect();
+        let mut unwritten = false;
+        let mut j = 0;
+        while j < v.len() { if v[j] == SENT { unwritten = true; } j += 1; }
+        if unwritten { v.push(i64::MIN + 1); }
+        v
     }};
     (yes, $O:ty, $len:expr, $call_out:expr) => {{
         use std::mem::MaybeUninit;
@@ -164,6 +190,7 @@ pub fn run(r: &Req) -> Option<String> {
                 "deque" => drive!(yes, f, view, ys, w, path, VecDeque<i64>, n),
                 "nd" => drive!(yes, f, view, ys, w, path, Array1<i64>, n),
                 "nds" => drive!(@nds yes, yes, f, view, ys, w, path, Array1<i64>, n),
+                "dqw" => drive!(@nds wrap, yes, f, view, ys, w, path, VecDeque<i64>, n),
                 _ => drive!(yes, f, view, ys, w, path, Vec<i64>, n),
             }
         }));
@@ -173,6 +200,7 @@ pub fn run(r: &Req) -> Option<String> {
             "deque" => drive!(no, f, view, ys, w, path, VecDeque<i64>, n),
             "nd" => drive!(no, f, view, ys, w, path, Array1<i64>, n),
             "nds" => drive!(@nds yes, no, f, view, ys, w, path, Array1<i64>, n),
+            "dqw" => drive!(@nds wrap, no, f, view, ys, w, path, VecDeque<i64>, n),
             _ => drive!(no, f, view, ys, w, path, Vec<i64>, n),
         }
     }))
@@ -196,8 +224,8 @@ pub fn generate(tier: &str, _rng: &mut Rng) -> (Vec<String>, bool) {
                     if *f == "rolling_custom_iter" && (p == "out" || *oc != "vec") {
                         continue; // lazy iterator: no output container involved
                     }
-                    if *oc == "nds" && (p == "ret" || *f == "rolling2_custom") {
-                        continue; // the strided view exists as a caller buffer only
+                    if (*oc == "nds" || *oc == "dqw") && (p == "ret" || *f == "rolling2_custom") {
+                        continue; // the strided view / the wrapped ring buffer exist as caller buffers only
                     }
                     for n in 0..=maxn {
                         for w in 1..=n + 3 {
@@ -217,5 +245,5 @@ pub fn generate(tier: &str, _rng: &mut Rng) -> (Vec<String>, bool) {
 }
 
 pub fn rule(tier: &str) -> String {
-    format!("exhaustive: 7 driver entry points incl. the lazy rolling_custom_iter (+ their *_to forms through p=out) x 15 input backends (Vec, slice, [T;N], Arc<Vec>, VecDeque at head offsets 0/1/3, Arc<VecDeque>, Array1, ArrayViewMut1, ArrayView1 with step 1,2,3,-1,-2) x 3 output containers x {{returned, caller buffer}} + a strided ndarray view as caller buffer (results must land in its slots and nowhere else) x len 0..={} x window 1..=len+3, with a recording stateful callback (returns a running counter). non-trivial = len >= 2.", if tier == "thorough" { 12 } else { 8 })
+    format!("exhaustive: 7 driver entry points incl. the lazy rolling_custom_iter (+ their *_to forms through p=out) x 15 input backends (Vec, slice, [T;N], Arc<Vec>, VecDeque at head offsets 0/1/3, Arc<VecDeque>, Array1, ArrayViewMut1, ArrayView1 with step 1,2,3,-1,-2) x 3 output containers x {{returned, caller buffer}} + a strided ndarray view as caller buffer (results must land in its slots and nowhere else) + a VecDeque caller buffer whose ring storage wraps around x len 0..={} x window 1..=len+3, with a recording stateful callback (returns a running counter). non-trivial = len >= 2.", if tier == "thorough" { 12 } else { 8 })
 }
